@@ -122,7 +122,12 @@ def compute(prog, rep):
     ok = set(kinds) == {"2d", "nd", "multi"} and all(v[1] for v in kinds.values())
     rep.check(ok, "C15.shape", f"{q}:single", fn.where(), "single component: (N, n_dim) array; 2-D through the line sorter (optimal start), transposed",
               f"one component must be returned as np.array(...).T - in 2-D np.array(sort_points_to_form_continuous_line(*coordinates, search_for_optimal_start=True)).T; found {[(k, show(v[2])[:100]) for k, v in kinds.items() if not v[1]]}")
-    single = [s for s in cfg.all_stmts() if isinstance(s, ast.If) and b.term(s.test, s) == ("cmp", "==", ("call", G("len"), (b.name("coordinates", s, {}),), ()), ("const", 1))]
+    single = []
+    for s in cfg.all_stmts():
+        if isinstance(s, ast.If):
+            tt = b.term(s.test, s)
+            if tt[0] == "cmp" and tt[1] == "==" and tt[3] == ("const", 1) and tt[2][0] == "call" and tt[2][1] == G("len") and tt[2][2] and tt[2][2][0] == ("list", ()):
+                single.append(s)
     rep.check(bool(single), "C15.shape", f"{q}:one-vs-many", fn.where(), "len(coordinates) == 1 selects the single-array form",
               "a single component is recognised by len(coordinates) == 1; several components stay a list with one coordinate set per region")
 
